@@ -190,6 +190,19 @@ CHECKS['C17'] = dict(cat='model_checking', struct=True, engine='symnp (explorer)
     note='bounded depth; ExternallyDerivable/PixelAligned messages are not part of the oracle; recorded finding '
          'C17/update-id-dependants excluded by its witness class')
 
+CHECKS['C03'] = dict(cat='other', engine='symnp',
+    technique='symbolic execution of the link manager on solver-enumerated link graphs with symbolic values + SMT equivalence with an independent shortest-chain closure',
+    text='All combinations of a one-way / two-way link a0->a1, a link a1->a2 (one-way, two-way, or starting from a derived '
+         'attribute), a shortcut a0->a2, a two-input link (a0,b0)->a1 and an identity link a2<->a0 (cycle), registered one by one '
+         'or in one delayed update, over three datasets with symbolic values: for every dataset and attribute, readable iff a '
+         'chain exists (independent least-fixpoint closure), the value read equals the composition along a minimum-depth chain '
+         '(disjunction over equally short chains), a selection on the attribute selects by those values and is incompatible '
+         'elsewhere. Then one mutation (remove / add link, remove a component or derived source attribute, remove a dataset, '
+         'remove and re-append, replace a link by set_links or inside delay_link_manager_update) and the same obligations plus: '
+         'no registered link, externally derivable attribute or pixel-alignment entry refers to a removed object.', ref='5/C03',
+    note=NOTE_SYM + '; link functions are fixed pairwise independent affine maps; 3 datasets (the property mentions ~5); key joins '
+         'are C11, coordinate links C15')
+
 NOT_YET = {}
 
 NOT_APPLICABLE = {
